@@ -72,7 +72,8 @@ where
     T: Flat + Sized,
     L: Flat + Length,
 {
-    const DATA_OFFSET: usize = max(L::SIZE, T::ALIGN);
+    // Offset of `data` in `#[repr(C)] { len: L, data: [T] }`: the length rounded up to the item alignment.
+    const DATA_OFFSET: usize = ceil_mul(L::SIZE, T::ALIGN);
 }
 
 impl<T, L> DataOffset<T, L> for FlatVec<T, L>
